@@ -145,9 +145,10 @@ func genPred(r *rand.Rand, cfg Cfg, depth int) string {
 type View struct {
 	Branches   []int
 	Tips       map[int]int
-	Live       map[int][]int // branch -> live abstract object ids (nil if unreadable)
-	Vecs       map[int][]int // branch -> ids with vectors
-	Gone       map[int]bool  // branch -> some live object's file has been vacuumed
+	Live       map[int][]int    // branch -> live abstract object ids (nil if unreadable)
+	Vecs       map[int][]int    // branch -> ids with vectors
+	Gone       map[int]bool     // branch -> some live object's file has been vacuumed
+	Objs       map[int][]ObjObs // branch -> observed objects (metadata)
 	NCommits   int
 	NObjs      int
 	ObjsAt     map[int][]int // commit -> object ids (missing if unreadable)
@@ -302,6 +303,20 @@ func (p *Profile) Next(r *rand.Rand, cfg Cfg, v *View) Op {
 			}
 			ids := subset(r, live, 1)
 			return Op{Kind: "delete", Branch: b, IDs: append(ids, ids[0])}
+		case "manage":
+			// manage-style compaction (cmd/super/internal/lakemanage/scan.go): objects sorted by
+			// min; a run grows while the next object overlaps it or the run is still smaller than
+			// the pool threshold; every run of two or more objects is compacted, a single object
+			// without a vector gets one.
+			runs := manageRuns(cfg, v.Objs[b])
+			if len(runs) == 0 || v.Gone[b] {
+				continue
+			}
+			run := runs[r.Intn(len(runs))]
+			if len(run) == 1 {
+				return Op{Kind: "addvec", Branch: b, IDs: run}
+			}
+			return Op{Kind: "compact", Branch: b, IDs: run, Vec: r.Intn(2) == 0}
 		case "dupvec":
 			// a vector operation listing an id twice
 			if cand := SetSub(live, v.Vecs[b]); len(cand) > 0 && r.Intn(3) > 0 {
@@ -433,6 +448,47 @@ func (p *Profile) Next(r *rand.Rand, cfg Cfg, v *View) Op {
 	}
 	vals := []int{r.Intn(v.NVals)}
 	return Op{Kind: "load", Branch: v.Branches[0], Vals: vals}
+}
+
+// manageRuns reproduces the run selection of lakemanage.scan on the observed objects.
+func manageRuns(cfg Cfg, objs []ObjObs) [][]int {
+	os := append([]ObjObs(nil), objs...)
+	sort.SliceStable(os, func(i, j int) bool { return KeyCmp(os[i].Min, os[j].Min) < 0 })
+	var runs [][]int
+	var cur []ObjObs
+	var size int64
+	lo, hi := "", ""
+	flush := func() {
+		if len(cur) >= 2 || (len(cur) == 1 && !cur[0].Vec) {
+			var ids []int
+			for _, o := range cur {
+				ids = append(ids, o.ID)
+			}
+			runs = append(runs, ids)
+		}
+		cur, size = nil, 0
+	}
+	for _, o := range os {
+		overlaps := len(cur) > 0 && KeyCmp(o.Min, hi) <= 0 && KeyCmp(o.Max, lo) >= 0
+		if len(cur) == 0 || overlaps || size+o.Size < cfg.ModelThresh() {
+			if len(cur) == 0 {
+				lo, hi = o.Min, o.Max
+			}
+			cur = append(cur, o)
+			size += o.Size
+			if KeyCmp(o.Min, lo) < 0 {
+				lo = o.Min
+			}
+			if KeyCmp(o.Max, hi) > 0 {
+				hi = o.Max
+			}
+			continue
+		}
+		flush()
+		cur, size, lo, hi = []ObjObs{o}, o.Size, o.Min, o.Max
+	}
+	flush()
+	return runs
 }
 
 func (h *History) Summary() string {
